@@ -135,6 +135,9 @@ func runC08(c *core.Ctx) *core.Outcome {
 	cfg.SetSession = t.Chance(1, 2)
 	cfg.FinishAlways = t.Chance(1, 3)
 	cfg.First = t.Chance(1, 4)
+	if deepReq > 0 && t.Chance(1, 2) {
+		cfg.First = true
+	}
 	cfg.ResetOnEmpty = t.Chance(1, 6)
 	mode := t.Weighted(2, 3, 2) // long-lived, persisted, mixed
 	w := world.New(a, cfg)
@@ -176,6 +179,12 @@ func runC08(c *core.Ctx) *core.Outcome {
 		fresh := mode == 1 || (mode == 2 && t.Chance(1, 2))
 		if cfg.First && t.Chance(1, 8) {
 			s.FailFirstNext = true
+		}
+		if cfg.First && deepReq > 0 {
+			// a failing pre-VM function right at the depth limit is where its error handling runs out of room
+			if p, _ := s.Position(); len(p) >= 127 && t.Chance(1, 2) {
+				s.FailFirstNext = true
+			}
 		}
 		if t.Chance(1, 14) {
 			s.FailTemplateThisRequest = true
